@@ -5,9 +5,16 @@ import propcheck
 def main(tier):
     ck = propcheck.Check('C18', tier)
     N = 26 if tier == 'quick' else 30
-    ck.assumptions += ['argument bytes are ASCII (< 0x80); argument length <= %d, decided separately for every length' % N,
+    ck.assumptions += ['findRootDirectory: os.Stat answers for the four candidate directories are symbolic; directories above the temporary directory are not modelled (the filesystem root itself is outside)', 'stdin vs file: Operator.Run is summarised as an uninterpreted function of its input string (equal inputs give equal outputs, nothing else assumed), so the query is about the bytes that reach the assembler; os.Stdin and os.Stdout modelled as byte streams',
+                       'argument bytes are ASCII (< 0x80); argument length <= %d, decided separately for every length' % N,
                        'regexp semantics: exact leftmost-first oracle built from the compiled syntax.Prog of the pattern text found in the current source (differentially tested against Go regexp)']
     jobs = [('cmd.VerifC18ParseRuleId', dict(fixlen={'arg': L}, unwind=N + 4)) for L in range(0, N + 1)]
     rs, viol = ck.run('parseRuleId', jobs, bounds={'arg_len': '0..%d (one job per length)' % N, 'unwind': N + 4})
+    ck.triage(viol)
+    jobs = [('cmd.VerifC18Root', dict(params={'depth': d}, unwind=20, hooks={'choice_strings': True}, timeout_ms=60000)) for d in range(4)]
+    rs, viol = ck.run('findRootDirectory', jobs, bounds={'start_depth': '0..3 below the temporary directory', 'nested_roots': 'all 16 combinations symbolic'})
+    ck.triage(viol)
+    jobs = [('cmd.VerifC18StdinVsFile', dict(fixlen={'l1': a, 'l2': b}, unwind=40, hooks={'fixed_map_order': True, 'summarise': {'(*github.com/coreruleset/crs-toolchain/v2/regex/operators.Operator).Run': 6}}, timeout_ms=60000, terminal_obligations=())) for a in range(0, 3) for b in range(0, 3)]
+    rs, viol = ck.run('stdin-vs-file', jobs, bounds={'content': 'two lines of 0..2 bytes each over {a, b, blank, tab}'})
     ck.triage(viol)
     return ck.finish()
